@@ -71,7 +71,12 @@ def flat(m):
 
 
 def live_record(L):
-    d = {"l_" + k: float(getattr(L, k)) for k in SC}
+    def num(v):
+        try:
+            return float(v)
+        except (TypeError, ValueError):
+            return float("nan")          # an attribute that was never written (None) shows up as a difference
+    d = {"l_" + k: num(getattr(L, k)) for k in SC}
     d.update({"l_" + k: flat(getattr(L, k)) for k in MT})
     return d
 
